@@ -210,8 +210,8 @@ func Go(name string, f func()) {
 	go s.taskMain(t, f)
 	if pm := s.opts.SpawnPausePermille; pm > 0 && s.cur != nil && !s.cur.pausing && s.cur.st() == stRunning {
 		// the new goroutine gets ahead of the one that started it (per spawn
-		// site the probability halves with every pause already injected)
-		pm >>= uint(min(s.sitePauses["go "+name], 16))
+		// site the probability halves with every fourth pause already injected)
+		pm >>= uint(min(s.sitePauses["go "+name]/4, 16))
 		v := s.St.Biased(5, 1000-pm, "spawn-pause")
 		if v > 0 {
 			s.notePause("go " + name)
